@@ -168,7 +168,8 @@ def loop_runs() -> Any:
             ents = []
             for j, (k, delta, naive, add_at) in enumerate(shots):
                 poll_start = base if k == 0 else m0 + k * MIN
-                ents.append({"id": f"o{si}_{j}", "t_off_us": poll_start + delta - base, "naive": naive, "add_at": min(add_at, k), "remove_at": None})
+                ents.append({"id": f"o{si}_{j}", "t_off_us": poll_start + delta - base, "naive": naive, "add_at": min(add_at, k), "remove_at": None,
+                             **({"via_api": True} if d["via_api"] and (si + j) % 2 == 0 else {})})      # created through schedule_by_time()
             if d["dup"] and ents:
                 # a second schedule of its own id with the same task, time and arguments as the first (scheduled twice): both are sent on time
                 ents.append({**ents[0], "id": ents[0]["id"] + "d", "tag": ents[0]["id"]})
@@ -188,6 +189,7 @@ def loop_runs() -> Any:
         "bsec": st.sampled_from([0, 12, 30, 57, 59]), "bus": st.sampled_from([0, 1, 500_000, 999_999]),
         "sources": st.lists(st.tuples(st.sampled_from([0.0, 0.0, 0.4, 1.0, 2.5, 3.3]), st.lists(shot, min_size=1, max_size=3)), min_size=1, max_size=2),
         "dup": st.sampled_from([False, False, True]),
+        "via_api": st.sampled_from([False, True]),
         "bulk": st.sampled_from([None] * 9 + [(40, SEC), (150, 300_000), (260, 200_000), (400, 0)]),
     }).map(fin)
 
